@@ -801,7 +801,6 @@ impl FileStateMachine {
 
         file.write_all(&buf).await?;
         file.flush().await?;
-        file.sync_all().await?;
         drop(file);
         tokio::fs::rename(&tmp_path, &data_path).await?;
 
@@ -849,7 +848,6 @@ impl FileStateMachine {
         file.write_all(&term.to_be_bytes()).await?;
 
         file.flush().await?;
-        file.sync_all().await?;
         drop(file);
         tokio::fs::rename(&tmp_path, &metadata_path).await?;
         Ok(())
